@@ -230,15 +230,16 @@ def t_line_roundtrip(ex):
     v1, v2 = KStr.fresh("value_DEPEND"), KStr.fresh("value_SLOT")
     for v in (v1, v2):
         ex.assume(Not(v.contains("\n")))
-    # lines as the reader hands them over (newline stripped), written by the `k=v\\n` writer
-    lines = [SStr(z3.Concat(z3.StringVal("DEPEND="), v1.t)), "UNKNOWN_KEY=zzz", SStr(z3.Concat(z3.StringVal("SLOT="), v2.t)), "_mtime_=1234"]
+    # lines as the file iteration hands them over: as the `k=v\\n` writer wrote them, line end included (whatever goes, the parser removes)
+    it.sepfree = {"\n": [v1.t, v2.t]}
+    lines = [SStr(z3.Concat(z3.StringVal("DEPEND="), v1.t, z3.StringVal("\n"))), "UNKNOWN_KEY=zzz\n", SStr(z3.Concat(z3.StringVal("SLOT="), v2.t, z3.StringVal("\n"))), "_mtime_=1234\n"]
     me = SObj(F.database, {"_known_keys": frozenset(("DEPEND", "SLOT", "_mtime_")), "_cdict_kls": dict, "_mtime_used": True, "mtime_in_entry": True, "_chf_key": "_mtime_", "_chf_deserializer": int})
     out = call(it, it.target(FH, "database._parse_data"), me, lines, 99)
     ex.oblige(f"{P}.raises.nothing", not out.raised, kind="exceptional-postcondition")
     if out.raised:
         return
     d = out.value
-    ex.oblige(f"{P}.ensures.known_keys_come_back_with_their_values_even_with_equals_signs_inside", And(set(d) == {"DEPEND", "SLOT", "_mtime_"}, d["DEPEND"] == v1, d["SLOT"] == v2, d["_mtime_"] == 1234))
+    ex.oblige(f"{P}.ensures.known_keys_come_back_with_their_values_even_with_equals_signs_inside", isinstance(d, dict) and set(d) == {"DEPEND", "SLOT", "_mtime_"} and And(d["DEPEND"] == v1, d["SLOT"] == v2, d["_mtime_"] == 1234))
 
 
 TREES = [
@@ -305,7 +306,7 @@ def enum_caches(seed):
 
             def entry(tag):
                 """-> (values to store, what a reader must get back)"""
-                base = {"DEPEND": rnd.choice(("", "dev-libs/a", ">=dev-libs/b-1[x=]")), "SLOT": rnd.choice(("0", "1/2")), "DESCRIPTION": f"{tag} a=b = c", "INHERIT": "e1 e2"}
+                base = {"DEPEND": rnd.choice(("", "dev-libs/a", ">=dev-libs/b-1[x=]")), "SLOT": rnd.choice(("0", "1/2")), "DESCRIPTION": f"{tag} a=b = c" + rnd.choice(("", "", " ", "\t", " .")), "INHERIT": "e1 e2"}   # a value may end in a blank or a tab
                 store, back = dict(base), {k: v for k, v in base.items() if v != ""}
                 NS = types.SimpleNamespace
                 if md5:
